@@ -4,8 +4,8 @@
 // One run is one history, drawn entirely from the choice tape:
 //
 //   - part A drives the real lexer.TLexer with a random legal interleaving of
-//     Next/Snapshot/Rollback/Commit and compares every observable with a fresh,
-//     never-snapshotted scan of the same input (cursor + stack-of-cursors model);
+//     Next/Snapshot/Rollback/Commit and compares every observable with a fresh
+//     scan of the same input by the plain lexer (cursor + stack-of-cursors model);
 //   - part B1 runs a random parser built from the real combinators over a
 //     simulated, call-recording RollbackLexer with injected lexer faults (F10)
 //     and compares (success, nodes, final position) with an independent
@@ -28,8 +28,8 @@ import (
 type Prop struct{}
 
 // quickRuns is sized from the measured throughput (see c13_test.go
-// BenchmarkRun): about 50k runs per CPU-second, so ~60 CPU-seconds.
-const quickRuns = 3_000_000
+// BenchmarkRun): about 41k runs per CPU-second single core (GOMAXPROCS=1), so ~60 CPU-seconds.
+const quickRuns = 2_500_000
 
 func (Prop) ID() string    { return "C13" }
 func (Prop) Level() string { return "exploration" }
@@ -50,8 +50,9 @@ func (Prop) Rule() string {
 
 func (Prop) Assumptions() []string {
 	return []string{
-		"the fresh scan (a second TLexer that is only ever advanced with Next) is trusted as the model of part A: " +
-			"the check compares two real lexers driven differently, what the lexer emits for an input is property C14",
+		"the fresh scan by the plain, non-transactional lexer.Lexer is trusted as the model of part A (tokens, errors, Next booleans): " +
+			"what the lexer emits for an input is property C14; TLexer.From/To, which the plain lexer does not export, are taken from a " +
+			"TLexer that is only ever advanced with Next, after that Next-only history was itself checked against the plain scan",
 		"inputs never end inside a comment or string literal, never contain NUL, always end in a newline and are <= 60 bytes " +
 			"(the lexer spins or panics on those shapes; they belong to other properties)",
 		"Token/Err/From/To are queried only after a successful Next (readp >= 0), Rollback/Commit only with a snapshot open",
